@@ -3,7 +3,8 @@ SPEC = {
     'theorems': ['EV.Rpc.C17_headers_cap', 'EV.Rpc.C17_headers', 'EV.Rpc.C17_history',
                  'EV.Rpc.C17_history_cache', 'EV.Rpc.C17_get_history', 'EV.Rpc.C17_subscribe',
                  'EV.Rpc.C17_notify', 'EV.Rpc.C17_invalidate'],
-    'suites': ['limits'],
+    'suites': ['limits', 'system'],
+    'entry': {'system': 'run_limits'},
     'assumptions': [
         'FileOK: the headers file holds height+1 headers of 80 bytes (index invariant, C01) - needed for '
         '"hex length = 160 * count"',
@@ -15,6 +16,7 @@ SPEC = {
         'a reorg that ends at the already-notified height is F4 (C07/C10), not covered here',
         'the LRU capacity of the caches (1000 entries) is not modelled: eviction only turns hits into misses',
         'the model is tied to session.py / db.py by differential execution, not by proof',
+        'the theorems are about one request against a fixed index; that the reported count is the count returned also when a reorganisation lands between request validation and the queued disk read is judged on every block.headers reply of the real server under the seeded scheduler (suite system, entry run_limits), not proved',
     ],
     'design_ref': 'DESIGN.md §6 C17',
     'level_text': 'proof: for every start, count, cp, cap and chain height the headers reply has '
